@@ -345,12 +345,14 @@ type writeCase struct {
 	// ViaCopy: every third chunk arrives through io.Copy from a plain reader (1) or through the ReadFrom of a
 	// bufio.Writer around the truncating writer (2): both use an io.ReaderFrom of the destination if there is one
 	ViaCopy int `json:"via_copy"`
+	// NL: every chunk ends with a newline (whole lines, as fmt.Fprintln and loggers write them)
+	NL bool `json:"chunks_end_with_newline"`
 }
 
 // onlyReader hides every optional interface of a reader.
 type onlyReader struct{ io.Reader }
 
-var writePattern = []byte("A\u00e9\u20acB\U0001f600\x80C\xbfD\u00e9\u00e9")
+var writePattern = []byte("A\u00e9\u20acB\U0001f600\x80C\xbfD\u00e9\u00e9\n\r\nE\x00F ")
 
 func runWrite(c writeCase) (what string, calls int) {
 	sw := &scriptWriter{script: c.Script}
@@ -383,6 +385,9 @@ func runWrite(c writeCase) (what string, calls int) {
 		for k := range b {
 			b[k] = writePattern[next%len(writePattern)]
 			next++
+		}
+		if c.NL && sz > 0 {
+			b[sz-1] = '\n'
 		}
 		orig := bytes.Clone(b)
 		all = append(all, b...)
@@ -899,13 +904,14 @@ func TestWriter(t *testing.T) {
 			gen.SeqAt(nWKinds, x/nc, c.Script)
 			c.ViaString = i%2 == 1
 			c.ViaCopy = (i / 2) % 3
+			c.NL = (i/6)%2 == 1
 			what, calls := runWrite(c)
 			evals += int64(calls)
 			if sum >= c.Limit {
 				nontriv++
 			}
 			if what != "" {
-				cc := writeCase{Limit: c.Limit, Chunks: append([]int{}, c.Chunks...), Script: append([]int{}, c.Script...), ViaString: c.ViaString, ViaCopy: c.ViaCopy}
+				cc := writeCase{Limit: c.Limit, Chunks: append([]int{}, c.Chunks...), Script: append([]int{}, c.Script...), ViaString: c.ViaString, ViaCopy: c.ViaCopy, NL: c.NL}
 				r.Violation(fmt.Sprintf("writer:%v", cc), fmt.Sprintf("TruncatedWriter(limit %d), writes of sizes %v (io.WriteString for every second: %v; every third through io.Copy / bufio.Writer.ReadFrom: %d), wrapped writer script %v: %s", c.Limit, c.Chunks, c.ViaString, c.ViaCopy, c.Script, what), cc)
 				if r.TooMany() {
 					break
@@ -922,7 +928,7 @@ func TestWriter(t *testing.T) {
 		ci := make([]int, nCalls)
 		for i := lo; i < hi; i++ {
 			for wr := wrapBytesBuffer; wr < nWraps; wr++ {
-				c := writeCase{Wrapped: wr, Limit: i % (maxLimit + 1), Chunks: make([]int, nCalls), ViaString: (i/(maxLimit+1))%2 == 1, ViaCopy: (i / 7) % 3}
+				c := writeCase{Wrapped: wr, Limit: i % (maxLimit + 1), Chunks: make([]int, nCalls), ViaString: (i/(maxLimit+1))%2 == 1, ViaCopy: (i / 7) % 3, NL: (i/3)%2 == 1}
 				gen.SeqAt(len(chunkSizes), i/(maxLimit+1), ci)
 				for k, j := range ci {
 					c.Chunks[k] = chunkSizes[j]
@@ -965,7 +971,7 @@ func TestWriter(t *testing.T) {
 		rng := r.Rand(uint64(60 + w))
 		var evals int64
 		for i := lo; i < hi; i++ {
-			c := writeCase{Limit: rng.IntN(5000)}
+			c := writeCase{Limit: rng.IntN(5000), NL: i%3 == 1}
 			for k := 0; k < 100; k++ {
 				c.Chunks = append(c.Chunks, []int{0, 1, 13, 100, 1000, 6000}[rng.IntN(6)])
 				c.Script = append(c.Script, rng.IntN(nWKinds))
